@@ -59,3 +59,90 @@ structure GoCall where
 deriving Repr, DecidableEq
 
 end Jedi.Go
+
+namespace Jedi.Go
+
+/-- every event of the list is in bounds -/
+def AllOk (l : List Ev) : Prop := ∀ e ∈ l, e.ok
+
+@[simp] theorem allOk_nil : AllOk [] ↔ True := by simp [AllOk]
+@[simp] theorem allOk_cons (a : Ev) (l : List Ev) : AllOk (a :: l) ↔ a.ok ∧ AllOk l := by simp [AllOk]
+@[simp] theorem allOk_append (l₁ l₂ : List Ev) : AllOk (l₁ ++ l₂) ↔ AllOk l₁ ∧ AllOk l₂ := by
+  simp only [AllOk, List.mem_append]
+  constructor
+  · intro h; exact ⟨fun e he => h e (Or.inl he), fun e he => h e (Or.inr he)⟩
+  · rintro ⟨h₁, h₂⟩ e (he | he); exact h₁ e he; exact h₂ e he
+@[simp] theorem allOk_ite (c : Prop) [Decidable c] (l₁ l₂ : List Ev) :
+    AllOk (if c then l₁ else l₂) ↔ (c → AllOk l₁) ∧ (¬ c → AllOk l₂) := by
+  by_cases h : c <;> simp [h]
+@[simp] theorem allOk_flatMap_range (n : Int) (f : Nat → List Ev) :
+    AllOk ((List.range n.toNat).flatMap f) ↔ ∀ i : Nat, 0 ≤ (i : Int) → (i : Int) < n → AllOk (f i) := by
+  simp only [AllOk, List.mem_flatMap, List.mem_range]
+  constructor
+  · intro h i _ hi e he; exact h e ⟨i, by omega, he⟩
+  · rintro h e ⟨i, hi, he⟩; exact h i (by omega) (by omega) e he
+
+@[simp] theorem ok_alloc (w : String) (b : Int) : (Ev.alloc w b).ok ↔ 0 ≤ b := Iff.rfl
+@[simp] theorem ok_access (w : String) (s o l : Int) : (Ev.access w s o l).ok ↔ 0 ≤ o ∧ 0 ≤ l ∧ o + l ≤ s := Iff.rfl
+@[simp] theorem ok_index (w : String) (l i : Int) : (Ev.index w l i).ok ↔ 0 ≤ i ∧ i < l := Iff.rfl
+@[simp] theorem ok_ccall (f : String) (a : List Arg) : (Ev.ccall f a).ok ↔ True := Iff.rfl
+@[simp] theorem ok_panic (m : String) : (Ev.panic m).ok ↔ False := Iff.rfl
+
+/-- the C functions that return the byte length of a marshalled object: at least 1 for every argument
+(C15: the length functions are sums of positive element sizes; `C15.marshal_length_*`, `C15.lq_length_values`). -/
+def lengthFnsList : List String := [
+  "embedded_pairing_wkdibe_params_get_marshalled_length", "embedded_pairing_wkdibe_ciphertext_get_marshalled_length",
+  "embedded_pairing_wkdibe_signature_get_marshalled_length", "embedded_pairing_wkdibe_secretkey_get_marshalled_length",
+  "embedded_pairing_wkdibe_masterkey_get_marshalled_length", "embedded_pairing_lqibe_params_get_marshalled_length",
+  "embedded_pairing_lqibe_id_get_marshalled_length", "embedded_pairing_lqibe_masterkey_get_marshalled_length",
+  "embedded_pairing_lqibe_secretkey_get_marshalled_length", "embedded_pairing_lqibe_ciphertext_get_marshalled_length"]
+
+
+/-- what every environment satisfies: sizes of C types are positive, lengths are not negative -/
+structure Valid (E : Env) : Prop where
+  sz_pos : ∀ t, 0 < E.sz t
+  len_nonneg : ∀ x, 0 ≤ E.i ("len", x)
+  /-- the exported size constants (`…_marshalled_compressed_size` etc.) are positive (C19: they equal the C++ values 48, 96, 192, 576) -/
+  cvar_pos : ∀ x, 1 ≤ E.i ("cvar", x)
+  /-- marshalled lengths are positive -/
+  lenfn_pos : ∀ f args, f ∈ lengthFnsList → 1 ≤ E.i ("call", f :: args)
+  /-- `…_set_length` returns −1 (refused) or the slot count (`unmarshalledLength`, include/wkdibe/api.hpp; C17.unLen_*) -/
+  setlen_ge : ∀ f args, f ∈ ["embedded_pairing_wkdibe_params_set_length", "embedded_pairing_wkdibe_secretkey_set_length"] →
+    -1 ≤ E.i ("call", f :: args)
+
+end Jedi.Go
+
+namespace Jedi.Go
+
+/-- what a VALID call of a binding is, beyond `Valid` (hand-written; `True` when nothing is listed). -/
+def Pre (fn : String) (E : Env) : Prop :=
+  if fn = "bls12381.GT.PairingSum" then
+    -- "computes the sum of e(a[i], b[i]) for i = 0 … len(a)-1 and e(c[j], d[j]) for j = 0 … len(c)-1"
+    E.i ("len", ["a"]) ≤ E.i ("len", ["b"]) ∧ E.i ("len", ["c"]) ≤ E.i ("len", ["d"])
+  else if fn = "internal.hashFill" then
+    -- the callback contract of include/lqibe/api.hpp: the library passes the lengths of the two buffers
+    0 ≤ E.i ("param", ["bufferLength"]) ∧ E.i ("param", ["bufferLength"]) ≤ E.i ("cap", ["buffer"]) ∧
+    0 ≤ E.i ("param", ["toHashLength"]) ∧ E.i ("param", ["toHashLength"]) ≤ E.i ("cap", ["toHash"])
+  else if fn = "internal.randomBytes" then
+    -- the callback contract of bls12_381.h (get_random_bytes): `length` bytes behind `buffer`; and the system's
+    -- random source did not fail (the binding panics by design if it does)
+    0 ≤ E.i ("param", ["length"]) ∧ E.i ("param", ["length"]) ≤ E.i ("cap", ["buffer"]) ∧ E.b ("nil", ["rand.Read(slice)"]) = true
+  else if fn = "cryptutils.Signable.Set" then
+    -- "must be 32 bytes long" (anything else panics, by design)
+    E.i ("len", ["data"]) = E.sz "embedded_pairing_core_bigint_256_t"
+  else if fn = "wkdibe.allocateSecretKeyB" then 0 ≤ E.i ("param", ["length"])
+  else if fn = "wkdibe.Setup" then 0 ≤ E.i ("param", ["l"])
+  else if fn = "wkdibe.KeyGen" ∨ fn = "wkdibe.QualifyKey" ∨ fn = "wkdibe.NonDelegableKeyGen" ∨ fn = "wkdibe.NonDelegableQualifyKey" then
+    -- an attribute list names each slot at most once (a Go map) and only slots below l
+    E.i ("len", ["attrs"]) ≤ E.i ("field", ["params.Data.l"])
+  else if fn = "wkdibe.ResampleKey" then 0 ≤ E.i ("field", ["key.Data.l"])
+  else if fn = "wkdibe.AdjustNonDelegable" then 0 ≤ E.i ("field", ["parent.Data.l"])
+  else if fn = "lqibe.ID.Hash" then
+    -- the struct idhash_t is exactly its byte array (true of the measured sizes: `GoB.sizes_pre`)
+    E.sz "embedded_pairing_lqibe_idhash_t" ≤ E.sz "uint8_t[48]"
+  else if fn = "lqibe.Encrypt" ∨ fn = "lqibe.Decrypt" then
+    -- the symmetric-key buffer to fill is not empty
+    1 ≤ E.i ("len", ["symmetric"])
+  else True
+
+end Jedi.Go
